@@ -67,3 +67,27 @@ def Cache.ok (io : FloatIO F) (c : Cache F) : Prop :=
     slotIndex c.bits s.hash = i ∧ s.hash.ok ∧ Fitness.ok io s.fitness
 
 end Vita.C11
+
+namespace Vita.C11
+variable {F : Type}
+
+/-! ### the operations that build a cache (cache.cc), for the reachability of `Cache.ok` -/
+
+/-- `cache::insert` -/
+def Cache.insert (c : Cache F) (h : Hash) (f : List F) : Cache F :=
+  { c with table := c.table.set (slotIndex c.bits h) ⟨h, f, c.sl⟩ }
+
+/-- `cache::clear()` -/
+def Cache.clear (c : Cache F) : Cache F := { c with sl := c.sl + 1 }
+
+/-- `cache::clear(key)`: `table_[index(h)].hash = hash_t();` -/
+def Cache.clearKey (c : Cache F) (h : Hash) : Cache F :=
+  { c with table := match c.table[slotIndex c.bits h]? with
+      | some s => c.table.set (slotIndex c.bits h) { s with hash := ⟨0, 0⟩ }
+      | none => c.table }
+
+/-- `Cache.ok` strengthened so that it is preserved by `clear()`: no slot is newer than the cache -/
+def Cache.Reach (io : FloatIO F) (c : Cache F) : Prop :=
+  c.ok io ∧ ∀ s ∈ c.table, s.sl ≤ c.sl
+
+end Vita.C11
